@@ -42,6 +42,97 @@ def statements(units):
     return out
 
 
+CORPUS = [
+    # an abstract type with a deferred binding spelled in mixed case, an extension that overrides it and one that does not (one diagnostic)
+    """module Shapes
+implicit none
+type, abstract :: Shape
+integer :: Ident
+contains
+procedure(Area_If), deferred :: Area
+procedure :: Show => Show_Shape
+end type Shape
+abstract interface
+function Area_If(self) result(a)
+import :: Shape
+class(Shape), intent(in) :: self
+real :: a
+end function Area_If
+end interface
+type, extends(Shape) :: Square
+real :: Side
+contains
+procedure :: Area => Square_Area
+procedure :: Show => Show_Square
+end type Square
+type, extends(Shape) :: Blob
+real :: Mass
+end type Blob
+interface Describe
+module procedure Show_Shape, Show_Square
+end interface Describe
+contains
+subroutine Show_Shape(self)
+class(Shape), intent(in) :: self
+end subroutine Show_Shape
+subroutine Show_Square(self)
+class(Square), intent(in) :: self
+end subroutine Show_Square
+function Square_Area(self) result(a)
+class(Square), intent(in) :: self
+real :: a
+a = self%Side**2
+end function Square_Area
+end module Shapes
+""",
+    # interface bodies importing several names, a typed function with RESULT, an extension of a plain type
+    """module Kinds
+implicit none
+integer, parameter :: wp = 8
+type :: Base_T
+integer :: k
+end type Base_T
+type, extends(Base_T) :: Ext_T
+integer :: m
+end type Ext_T
+interface
+subroutine Draw(p, q, scale)
+import :: Base_T, Ext_T, wp
+type(Base_T), intent(in) :: p
+type(Ext_T), intent(in) :: q
+real(wp), intent(in) :: scale
+end subroutine Draw
+end interface
+contains
+function Twice(x) result(res)
+integer, intent(in) :: x
+integer :: res
+res = 2*x
+end function Twice
+end module Kinds
+""",
+]
+
+
+def corpus_statements(text):
+    import re
+    out = []
+    for line in text.split("\n"):
+        if not line.strip():
+            continue
+        low = line.strip().lower()
+        if re.match(r"(end\b|module\s+\w+$|program\b|subroutine\b|function\b|abstract interface|interface\b|type\s*(,|::)|type\s+\w+$)", low):
+            k = "struct"
+        elif low in ("contains", "implicit none") or low.startswith(("use ", "private", "public")):
+            k = "plain"
+        elif "::" in low or low.startswith(("import", "module procedure")):
+            k = "decl"
+        else:
+            k = "exec"
+        out.append((line, k))
+    return out
+
+
 def relayout(stmts, rng, kinds):
     """returns (text, start_line_of_statement[i]) for a random composition of the chosen transformation kinds"""
     lines = []
@@ -72,9 +163,12 @@ def relayout(stmts, rng, kinds):
             i += 2
             continue
         start.append(len(lines))
-        if "continuation" in kinds and kind in ("exec", "decl") and " " in t.strip() and rng.random() < 0.35:
+        if "continuation" in kinds and (kind in ("exec", "decl") or (kind == "struct" and "(" in t)) and " " in t.strip() and rng.random() < 0.35:
             s = t.rstrip()
             cut = [k for k in range(len(s)) if s[k] == " " and s[:k].strip() and s[k:].strip()]
+            if "'" not in s and '"' not in s and "!" not in s:
+                # between two tokens no blank is needed: right after an opening parenthesis or a comma
+                cut += [k for k in range(1, len(s)) if s[k - 1] in "(," and s[k:].strip()]
             k = rng.choice(cut)
             lead = rng.choice(["", "&", "  & "])
             tail = ""
@@ -148,16 +242,30 @@ def map_dump(d, start):
 
 def check_metamorphic(ctx, n):
     kinds_all = ["terminator", "trailing", "comment", "blank", "case", "continuation", "semicolon"]
-    for k in range(n):
-        g = c04.Gen(ctx.rng, keyword_names=False)
-        units = [g.unit() for _ in range(ctx.rng.choice([1, 2]))]
-        stmts = statements(units)
+    for k in range(n + len(CORPUS) * (2 if ctx.quick() else 12)):
+        if k >= n:
+            stmts = corpus_statements(CORPUS[(k - n) % len(CORPUS)])
+        else:
+            g = c04.Gen(ctx.rng, keyword_names=False)
+            units = [g.unit() for _ in range(ctx.rng.choice([1, 2]))]
+            stmts = statements(units)
         base_text = "\n".join(t for t, _ in stmts) + "\n"
         base = dump(base_text)
         if base is None:
             continue
         bstart = list(range(len(stmts)))
         bmap = map_dump(base, bstart)
+        if k >= n:
+            # hand-written programs spell their names in mixed case: the whole text in upper and in lower case
+            for variant, vt in (("upper", base_text.upper()), ("lower", base_text.lower())):
+                got = dump(vt)
+                ctx.count(("meta-case", base_text, variant), True)
+                if got is None or map_dump(got, bstart) != bmap:
+                    tm = map_dump(got, bstart) if got else ([], [])
+                    ctx.report("C13:layout", "entities/diagnostics change when the whole program is written in %s case" % variant,
+                               {"kind": "counterexample", "input": {"original": base_text, "text": vt, "transformations": ["case"]},
+                                "implementation": {"symbols": [x for x in tm[0] if x not in bmap[0]][:8], "diagnostics": [x for x in tm[1] if x not in bmap[1]][:8]},
+                                "oracle": {"symbols": [x for x in bmap[0] if x not in tm[0]][:8], "diagnostics": [x for x in bmap[1] if x not in tm[1]][:8]}})
         for _ in range(3 if ctx.quick() else 6):
             kinds = set(ctx.rng.sample(kinds_all, ctx.rng.choice([1, 2, 3, 7])))
             text, start = relayout(stmts, ctx.rng, kinds)
